@@ -119,6 +119,67 @@ theorem later_child_completes (earlier : List (List Bytes)) (reqs : List (Fin 25
   unfold parent
   simp [List.flatMap_append, handover_trace]
 
+/-! ### any grouping of the requests into reads (F-17d) -/
+
+theorem frame_eq (t : Fin 256) : frame t = [UInt8.ofNat t.val, 0, 2, 123, 125] := by
+  simp [frame, sendMsg]
+
+theorem parseMsg_frame (t : Fin 256) (rest : Bytes) :
+    parseMsg (frame t ++ rest) = some ((t.val, 2, [123, 125]), rest) := by
+  rw [frame_eq]
+  simp [parseMsg]
+
+theorem parseAll_frames (ts : List (Fin 256)) (fuel : Nat) (hf : ts.length ≤ fuel) (hne : ts ≠ []) :
+    parseAll fuel ((ts.map frame).flatten) = ts.map fun t => (t.val, 2, [123, 125]) := by
+  induction ts generalizing fuel with
+  | nil => exact absurd rfl hne
+  | cons t ts ih =>
+    cases fuel with
+    | zero => simp at hf
+    | succ fuel =>
+      simp only [List.map_cons, List.flatten_cons, parseAll, parseMsg_frame]
+      cases ts with
+      | nil => simp
+      | cons t2 ts2 =>
+        have hne2 : ((List.map frame (t2 :: ts2)).flatten).isEmpty = false := by
+          simp [frame_eq]
+        rw [hne2]
+        simp only [Bool.false_eq_true, ↓reduceIte]
+        rw [ih fuel (by simpa using hf) (by simp)]
+
+
+/-- **Every request is performed once, in the order requested, and acknowledged — however the requests are grouped into reads.**
+A child sends the request frames `groups.flatten`; the stream socket delivers them to the parent in reads of any grouping (each read:
+some consecutive frames, at most the 4096 bytes of the read buffer, i.e. up to 819 frames).  The parent performs exactly the specified
+steps, in the order requested, each with the matching reply (unknown types with the unknown reply). -/
+theorem handover_trace_any_grouping (groups : List (List (Fin 256))) (hsz : ∀ g ∈ groups, g ≠ [] ∧ 5 * g.length ≤ 4096) :
+    childReads 4096 (groups.map fun g => (g.map frame).flatten) = groups.flatten.flatMap (fun t => specStep t.val) := by
+  unfold childReads
+  induction groups with
+  | nil => rfl
+  | cons g gs ih =>
+    obtain ⟨hne, hlen⟩ := hsz g (by simp)
+    have hl : ((g.map frame).flatten).length = 5 * g.length := by
+      clear hne hlen ih hsz
+      induction g with
+      | nil => rfl
+      | cons t ts ih => simp only [List.map_cons, List.flatten_cons, List.length_append, ih, frame_eq, List.length_cons, List.length_nil]; omega
+    have htake : ((g.map frame).flatten).take 4096 = (g.map frame).flatten := List.take_of_length_le (by omega)
+    simp only [List.map_cons, List.flatMap_cons, List.flatten_cons, List.flatMap_append]
+    rw [ih (fun g' hg' => hsz g' (by simp [hg']))]
+    congr 1
+    unfold readMsgs
+    rw [htake, parseAll_frames g _ (by omega) hne]
+    clear hl htake hne hlen ih hsz
+    induction g with
+    | nil => rfl
+    | cons t ts ih => simp only [List.map_cons, List.flatMap_cons, ih, dispatch_matches_spec t]
+
+/-- before 0f56e69 one read was one request: the second frame of a read was dropped -/
+theorem old_one_frame_per_read :
+    child 4096 [frame 5 ++ frame 1] = specStep 5 ∧ childReads 4096 [frame 5 ++ frame 1] = specStep 5 ++ specStep 1 := by
+  constructor <;> decide
+
 /-! ### the behaviour before the repair (`fix:` commits c234c2d, 8d6f9ce), kept as counterexamples -/
 
 /-- F-17a: a frame declaring 3 payload bytes but carrying 2 was accepted (with an invented
@@ -195,3 +256,5 @@ end SamVerif.Props.C17
 #print axioms SamVerif.Props.C17.old_accepts_short_frame
 #print axioms SamVerif.Props.C17.old_panics_on_full_buffer
 #print axioms SamVerif.Props.C17.control_loop_matches_model
+#print axioms SamVerif.Props.C17.handover_trace_any_grouping
+#print axioms SamVerif.Props.C17.old_one_frame_per_read
